@@ -619,6 +619,15 @@ struct RefsWorld : World {
 						fired = g.fired; break; }
 					case 12: { what = "clone";
 						if (x & 0x40000) { if (clone_g) { Sut su; clone_g->unref(); clone_g = 0; } else if (is_alive(P(GR[j]->id()))) { Sut su(fn); clone_g = GR[j]->clone(); fired = g.fired; } }
+						else if (clone_l && (x & 0x80000) && is_alive(P(LY[i]->id())) && is_alive(P(GR[j]->id()))) {
+							// a graph is taken out of layout i while a clone of a layout exists (it may share the item entries): the clone lists what it listed before
+							what = "group clear(ref) beside a clone";
+							const item_group *cg = static_cast<const item_group *>(static_cast<const layout *>(clone_l)); std::vector<const void *> before; for (auto &it : cg->items()) before.push_back(it.instance());
+							size_t n; { Sut su(fn); n = LY[i]->clear(GR[j]); fired = g.fired; }
+							size_t k = 0; bool same = (size_t) cg->items().size() == before.size(); if (same) for (auto &it : cg->items()) if (it.instance() != before[k++]) { same = false; break; }
+							if (!same) fail("other-handle-changed", "removing a graph from a layout (%zu entries released) changed the entries of a clone of a layout", n);
+							st.hit("probe:group_clear_beside_clone");
+						}
 						else { if (clone_l) { Sut su; clone_l->unref(); clone_l = 0; } else if (is_alive(P(LY[i]->id()))) { Sut su(fn); clone_l = LY[i]->clone(); fired = g.fired; } }
 						break; }
 					case 15: { what = "cycle use"; if (!is_alive(P(CY[w]->id()))) break;
@@ -669,11 +678,12 @@ struct RefsWorld : World {
 				const void *lid = L->id();
 				std::vector<node *> nodes; long nodeheld[3] = {0, 0, 0};
 				int nn = 1 + (int) ((x >> 28) % 4);
-				static const char *const names[] = {"graph g1", "graph g2", "world w1", "axis a1", "line l1", "text t1", "alias", "name", "graph g1", "bogus b1", "graph", "xaxis x1"};
+				static const char *const names[] = {"graph g1", "graph g2", "world w1", "axis a1", "line l1", "text t1", "alias", "name", "graph g1", "bogus b1", "graph", "xaxis x1",
+					"line an-item-name-beyond-the-inline-capacity", "graph a-graph-name-beyond-the-inline-capacity"};      // (item names that need an allocation of their own)
 				for (int k = 0; k < nn; ++k) {
 					x = x * 1664525u + 1013904223u;
 					unsigned kind = (x >> 12) % 4; int o = (int) ((x >> 16) % 3);
-					const char *nm = names[(x >> 20) % 12];
+					const char *nm = names[(x >> 20) % 14];
 					node *n; { Sut su; n = mpt_node_new(strlen(nm) + 1); if (n && !mpt_identifier_set(&n->ident, nm, -1)) { mpt_node_destroy(n); n = 0; } }
 					if (!n) continue;
 					if (kind == 0 && alive(o) && model[o] == 1) { uintptr_t r; { Sut su; r = obj[o]->addref(); } if (r) { n->_meta = obj[o]; ++nodeheld[o]; } }
